@@ -35,11 +35,7 @@ std::unique_ptr<NodeResult> ReadFileNode::evaluate(PSC::Context &ctx) {
         throw PSC::RuntimeError(token, ctx, "Expected string for file name");
 
     PSC::Variable *var = ctx.getVariable(identifier.value);
-    if (var == nullptr) {
-        var = new PSC::Variable(identifier.value, PSC::DataType::STRING, false, &ctx);
-        ctx.addVariable(var);
-    }
-    if (var->type != PSC::DataType::STRING)
+    if (var != nullptr && var->type != PSC::DataType::STRING)
         throw PSC::RuntimeError(token, ctx, "Variable of type STRING expected");
 
     auto &filename = filenameRes->get<PSC::String>();
@@ -48,10 +44,18 @@ std::unique_ptr<NodeResult> ReadFileNode::evaluate(PSC::Context &ctx) {
         throw PSC::FileNotOpenError(token, ctx, filename.value);
     if (file->getMode() == PSC::FileMode::RANDOM)
         throw PSC::RuntimeError(token, ctx, "Attempting to use 'READFILE' on random file. Use 'GETRECORD' instead.");
-    
-    PSC::String *data = new PSC::String;
-    *data = file->read();
-    var->set(data);
+    if (file->getMode() != PSC::FileMode::READ)
+        throw PSC::RuntimeError(token, ctx, "File '" + filename.value + "' is not opened for reading");
+
+    if (var == nullptr) {
+        var = new PSC::Variable(identifier.value, PSC::DataType::STRING, false, &ctx);
+        ctx.addVariable(var);
+    }
+    if (var->isConstant)
+        throw PSC::ConstAssignError(token, ctx, var->name);
+
+    // assign in place: the storage may be shared with a BYREF parameter
+    var->get<PSC::String>() = file->read();
 
     return std::make_unique<NodeResult>(nullptr, PSC::DataType::NONE);
 }
